@@ -69,13 +69,13 @@ def run_r5(chk: Check, prog: Program) -> None:
         if name == "__init__" or (not stores and not undecided):
             chk.ok("C12.R5", key, f"Tokenizer.{name} stores {stores or 'nothing'} on itself", where=m.where)
         elif stores:
-            chk.fail("C12.R5", key + ":" + stores[0].split("(")[0], f"Tokenizer.{name} modifies state kept on the tokenizer: {stores}",
-                     "the tokenizer writes state that outlives the call (on itself or on an object it keeps): what a later "
-                     "tokenize() returns can depend on earlier calls, e.g. on a call that raised half-way",
-                     witness={"stores": stores}, where=m.where)
+            # inventory, not a verdict (a stored statistic would be harmless): whether a later tokenize() depends on it is
+            # decided by R6, which interprets two calls on one tokenizer against a fresh one
+            chk.info("C12.R5", key + ":" + stores[0].split("(")[0], f"Tokenizer.{name} modifies state kept on the tokenizer: {stores}",
+                     "the tokenizer writes state that outlives the call (judged through R6)", m.where)
         else:
-            chk.undecided("C12.R5", key, f"Tokenizer.{name} calls {undecided} on an object kept on the tokenizer",
-                          "callee not resolved", m.where)
+            chk.info("C12.R5", key, f"Tokenizer.{name} calls {undecided} on an object kept on the tokenizer",
+                     "callee not resolved", m.where)
     for f in prog.all_functions():
         env = None
         for n in ast.walk(f.node):
@@ -90,9 +90,10 @@ def run_r5(chk: Check, prog: Program) -> None:
                         if f.qualname == "Token.__init__":
                             chk.ok("C12.R5", key, f"{unparse(n)} in {f.qualname}", where=f.where)
                         else:
-                            chk.fail("C12.R5", key, f"{unparse(n)} in {f.qualname}",
-                                     "a Token is modified after construction: cached token lists share Token objects "
-                                     "with every list handed out", witness={"statement": unparse(n)}, where=f.where)
+                            chk.info("C12.R5", key, f"{unparse(n)} in {f.qualname}",
+                                     "a Token is modified after construction: cached token lists share Token objects with every "
+                                     "list handed out (judged through the history scenarios of R1, which compare token values)",
+                                     f.where)
 
 
 def run_concrete_history(chk: Check, prog: Program) -> None:
